@@ -73,8 +73,11 @@ def gen_case(rng, i, tier):
         i -= N_E2
     if i < N_S[tier]:
         names = rng.sample(NAME_POOL, rng.randint(1, 3))
-        arg = lambda: [[rng.choice(names), rng.choice(sigm.POSW)] for _ in range(rng.randint(1, 2))]  # noqa: E731
+        # an argument may carry no pair at all: "()" (a scalar input / output), anywhere in the list
+        arg = lambda: [[rng.choice(names), rng.choice(sigm.POSW)] for _ in range(rng.choice([0, 1, 1, 1, 2, 2]))]  # noqa: E731
         ins = [arg() for _ in range(rng.randint(1, 3))]
+        if not any(ins):
+            ins[0] = [[names[0], "center"]]
         outs = [arg() for _ in range(rng.randint(1, 2))]
         return {"kind": "S", "ins": ins, "outs": outs, "rseed": rng.getrandbits(31),
                 "spaces": rng.random() < 0.3}
